@@ -63,8 +63,36 @@ def _emission_guarded(R, rid, f, emit_calls, key):
     return add if ok else None
 
 
+def distinct_add_fn(P):
+    """the `add(&mut set, &tuple) -> bool` function of the DISTINCT memory: by its pinned name, or - after a rename / generalisation -
+    the local bool-returning method, called by the SELECT engine, whose receiver type holds a hash set"""
+    f = P.fn("sqlgrep::execution::helpers::DistinctValues::add")
+    if f is not None:
+        return f
+    sel = P.fn(SEL)
+    if sel is None:
+        return None
+    selv = sel        # the raw function: the method must still be visible as a call
+    for c in selv.calls:
+        for k in P.callee_keys(selv, c):
+            g = P.fns[k]
+            if g.kind == "Closure" or g.local_ty(0) != "bool" or g.arg_count < 2 or not g.local_ty(1).startswith("&mut "):
+                continue
+            adt_name = re.sub(r"<.*$", "", g.local_ty(1)[5:])
+            a = P.adts.get(adt_name)
+            if a and any(re.search(r"(hash::set::HashSet|btree::set::BTreeSet)<", fl["ty"]) for v in a["variants"] for fl in v["fields"]):
+                return g
+    return None
+
+
 def run(R):
     P = R.prog
+    global ADD
+    _af = distinct_add_fn(P)
+    if _af is None:
+        from .core import AnchorMissing
+        raise AnchorMissing("the DISTINCT memory (a set type with an add(&tuple) -> bool method used by the SELECT engine) was not found")
+    ADD = "^" + re.escape(_af.spath) + "$"
     R.rule("C08.select", "plain SELECT: a row is emitted only through `distinct == false` or `DistinctValues::add(projected tuple) == true`; "
                          "the tuple tested is the tuple emitted")
     R.rule("C08.agg", "aggregate result table: every pushed row passes the same two edges, independently of HAVING; the DISTINCT memory is local "
@@ -72,26 +100,29 @@ def run(R):
     R.rule("C08.set", "DistinctValues::add is contains-then-insert on one set of whole value tuples and returns `!contains`")
     # ---- select
     KEEP = r"DistinctValues::|aggregate_execution::accept_group$|ExpressionExecutionEngine::|data_model::Row::new$|extract_result_rows_by_column$"
-    f = PR.view(P, R.need_fn(SEL), keep=KEEP)
+    f = PR.view(P, R.need_fn(SEL, raw=True), keep=KEEP, hold=ADD)
     rows = PR.calls_matching(f, r"^sqlgrep::data_model::Row::new$")
     add = _emission_guarded(R, "C08.select", f, rows, "select")
     if add is not None and rows:
         # the vector tested is the vector that becomes the row
-        def root(op):
-            for o in F.origins(f, op, depth=6, through_calls=False):
+        def roots(op):
+            out = set()
+            for o in F.origins(f, op, depth=10):
                 if o.kind in ("place",) and o.place is not None:
-                    return o.place["l"]
-                if o.kind == "call":
-                    return ("call", o.call.bb)
-            return None
-        a, b = root(add.args[1]), root(rows[0].args[0])
-        if a is not None and a == b:
+                    out.add(("place", o.place["l"]))
+                if o.kind == "call" and not F.TRANSPARENT.search(short(o.call.name)):
+                    out.add(("call", o.call.bb))
+                if o.kind == "aggr" and o.place is not None:
+                    out.add(("aggr", o.place["l"]))
+            return out
+        a, b = roots(add.args[1]), roots(rows[0].args[0])
+        if a & b:
             R.ok("C08.select", "select", "emission guarded; the tuple given to add() is the vector moved into the row", add.loc())
         else:
             R.violation("C08.select", "select|other-tuple", "DistinctValues::add is applied to a different value than the row that is emitted",
                         [add.loc()])
     # ---- aggregate
-    f = PR.view(P, R.need_fn(AGG), keep=KEEP)
+    f = PR.view(P, R.need_fn(AGG, raw=True), keep=KEEP, hold=ADD)
     pushes = [c for c in PR.calls_matching(f, r"^alloc::vec::Vec::push$")
               if (c.func.get("res_targs") or c.targs)[:1] == ["sqlgrep::data_model::Row"]]
     if not pushes:
@@ -113,16 +144,28 @@ def run(R):
             # memory local to the call
             # the receiver of add() is a value created in this call (any constructor), not something reached through self
             recv_os = F.origins(f, add.args[0], depth=6, through_calls=False)
-            local_new = [o.call for o in recv_os if o.kind == "call" and "DistinctValues" in f.local_ty(o.call.dest["l"])] if recv_os else []
+            set_ty = re.sub(r"<.*$", "", _af.local_ty(1)[5:])
+            local_new = [o.call for o in recv_os if o.kind == "call" and o.call.dest is not None and
+                         (set_ty in f.local_ty(o.call.dest["l"]) or "DistinctValues" in f.local_ty(o.call.dest["l"]))] if recv_os else []
             recv_self = any(o.kind == "arg" and o.arg == 1 for o in recv_os)
-            if local_new and not recv_self:
+            built_here = [o for o in recv_os if o.kind in ("aggr", "call")]
+            if (local_new or built_here) and not recv_self:
+                local_new = local_new or [add]
                 R.ok("C08.agg", "agg|local-memory", "the DISTINCT set is created inside execute_result", local_new[0].loc())
             else:
                 R.violation("C08.agg", "agg|persistent-memory",
                             "execute_result tests DISTINCT against a set stored in the engine: rows shown by an earlier refresh are removed from "
                             "every later result table", [add.loc()])
     # ---- the set
-    af = R.need_fn("sqlgrep::execution::helpers::DistinctValues::add")
+    af = PR.view(P, _af)
+    # a generic set (`Set<T>`) is instantiated by its callers: the element type is then read at the call sites in the engines
+    inst = set()
+    for g in P.fns.values():
+        for c in g.calls:
+            if _af.key in P.callee_keys(g, c):
+                for t_ in (c.func.get("res_targs") or c.targs or []):
+                    inst.add(t_)
+    generic_elem = TUPLE_TY in inst
     names = [short(c.name) for c in af.calls]
     cont = PR.calls_matching(af, r"^std::collections::hash::set::HashSet::contains$")
     ins = PR.calls_matching(af, r"^std::collections::hash::set::HashSet::insert$")
@@ -147,7 +190,7 @@ def run(R):
         # equivalent spelling: `self.values.insert(value.clone())` returns true exactly for a new tuple
         t2 = (ins[0].func.get("res_targs") or ins[0].targs)[:1]
         ret_from_insert = any(o.kind == "call" and o.call is ins[0] for o in F.origins(af, 0, depth=4, through_calls=False))
-        if t2 != [TUPLE_TY]:
+        if t2 != [TUPLE_TY] and not (t2 and re.fullmatch(r"[A-Z]\w*", t2[0]) and generic_elem):
             R.violation("C08.set", "add|element-type",
                         "the DISTINCT set stores %s instead of the whole value tuple (Vec<Value>): different tuples can collide and a row is dropped"
                         % t2, [af.loc()])
@@ -160,7 +203,7 @@ def run(R):
     if okset:
         t1 = (cont[0].func.get("res_targs") or cont[0].targs)[:1]
         t2 = (ins[0].func.get("res_targs") or ins[0].targs)[:1]
-        if t1 != [TUPLE_TY] or t2 != [TUPLE_TY]:
+        if (t1 != [TUPLE_TY] or t2 != [TUPLE_TY]) and not (t1 == t2 and t1 and re.fullmatch(r"[A-Z]\w*", t1[0]) and generic_elem):
             R.violation("C08.set", "add|element-type",
                         "the DISTINCT set stores %s instead of the whole value tuple (Vec<Value>): different tuples can collide and a row is dropped"
                         % (t2 or t1), [af.loc()])
@@ -172,9 +215,12 @@ def run(R):
         else:
             # returned constants
             rets = {}
+            afa = PR.facts(af)
             for i, s in af.stmts():
                 if s["k"] == "assign" and s["pl"]["l"] == 0 and s["rv"]["k"] == "use" and s["rv"]["op"]["k"] == "const":
-                    arm = "dup" if af.dominates(g[1], i) else ("new" if af.dominates(g[2], i) else "?")
+                    known = [val for call, val in afa.call_facts(i) if call is cont[0]]
+                    arm = "dup" if known == [True] else ("new" if known == [False] else
+                                                        ("dup" if af.dominates(g[1], i) else ("new" if af.dominates(g[2], i) else "?")))
                     rets[arm] = s["rv"]["op"]["v"]
             if rets.get("dup") == "false" and rets.get("new") == "true":
                 R.ok("C08.set", "add", "contains -> false; otherwise insert(clone) -> true; set of Vec<Value>", af.loc())
